@@ -406,6 +406,18 @@ _MORE7 = {
     "C16": "A few scenarios let a flaky property fail twice in one process, so that the second save goes to the name of the first; these are judged on the system-call trace.",
     "C17": "Family usable-among-others: one usable, still failing file with an other-version copy of the same words before it, a now-passing or garbage file after it, or with unused trailing words; the report must be that file's test case (C01 oracle).",
 }
+_MORE8 = {
+    "C04": "A quarter of the check pairs are followed by three Checks with the same seed over ONE generator whose Filter holds for 1 value in 24.",
+    "C06": "A third of the explicit -rapid.failfile paths contain characters that mean something to a glob.",
+    "C09": "A fifth of the skip-pattern runs use a TB whose Context() is cancelled already.",
+    "C10": "Family nested: a Check inside a property with the enclosing *rapid.T as its TB.",
+    "C11": "Family tb-failed-by-others: something else fails the enclosing TB while Check runs; no test case may be blamed.",
+    "C12": "400 more Checks of Uint/Uint64 thresholds above 2^63, one seed each (about one seed in a hundred finds its first counterexample as a genuine 64-bit value).",
+    "C14": "A goroutine that the watchdog's dump shows waiting for a lock inside rapid.(*T) for five minutes or more is reported as a deadlock (VIOLATION) even if the scenario finishes when run alone.",
+    "C15": "In two rounds out of seven every test case constructs StringMatching/SliceOfBytesMatching generators for one expression text itself.",
+}
+for _k, _v in _MORE8.items():
+    _MORE7[_k] = _MORE7.get(_k, "") + " " + _v
 for _k, _v in _MORE7.items():
     _MORE6[_k] = _MORE6.get(_k, "") + " " + _v
 for _k, _v in _MORE6.items():
